@@ -313,6 +313,9 @@ class Run:
         for v in self.violations:
             if v["clause"] == clause and v["witness"] == witness:
                 return
+        if len(self.violations) >= 12:
+            self.notes["violations_not_written"] = self.notes.get("violations_not_written", 0) + 1
+            return
         self.replay_n += 1
         rp = ROOT / "replays" / f"{self.prop}-{self.seed}-{self.replay_n}.json"
         rp.parent.mkdir(exist_ok=True)
